@@ -96,6 +96,16 @@ def run(ctx):
         if bad:
             ctx.violation('%s:%s:%s' % (a, kname.replace(' ', '_'), what.replace(' ', '_')), '%s: %s (replay: link cbmc/tabcell.c with cfg_kind=%d cfg_mode=%d cfg_key=%d cfg_dir=%d cfg_hash=%d for %s)' % (
                 name, bad, kind, mode, key, d, h, ARCH_FILES[a]))
+    # must-fail twin (vacuity): the comparison has to tell key sizes apart - a burst cell held against the job-API cells of a DIFFERENT key size must mismatch
+    for a in bases:
+        cbc, nul = c06.CIPHERS['CBC'][0], hashes['NULL']
+        b16 = res.get((a, (8, cbc, 16, 1, nul)), (None,))[0]
+        j24 = (res.get((a, (0, cbc, 24, 1, nul)), (None,))[0] or []) + (res.get((a, (1, cbc, 24, 1, nul)), (None,))[0] or [])
+        if b16 is not None and j24:
+            real = set(l for l in b16 if not helpers.match(l))
+            allowed = set(l for l in j24 if not helpers.match(l))
+            ctx.add('WITNESS SUBMIT_CIPHER_BURST(CBC,key 16) held against the job-API cells of key 24 must mismatch [%s]' % a, 'violated' if (real and not real <= allowed) else 'discharged', 0, 'cbmc',
+                    'burst: %s; wrong reference: %s' % (sorted(real), sorted(allowed)), expect='violated')
     # the no-check / check entry points share one implementation: checked by the ring harness (entries 1/2 and 7/8)
     ctx.samples.append('SUBMIT_CIPHER_BURST(CBC,enc,key 24) reaches {submit,flush}_job_aes192_enc: exactly the managers the job API cell uses')
 
